@@ -27,9 +27,9 @@ for sid in sorted(os.listdir(V + "/seeded")):
         r_ = sid.split("-")[1][0]
         tot_, miss_ = per_round.get(r_, (0, 0))
         per_round[r_] = (tot_ + 1, miss_ + (1 if sid in first else 0))
-rounds = ", ".join("%s*: %d changes, %d not caught on arrival" % (k, v[0], v[1]) for k, v in sorted(per_round.items(), key=lambda kv: "mnpqruv".index(kv[0])))
-head = ("%d seeded changes in seven rounds of independent sub-agents (m* round 1; n* round 2, given the one-line summaries of round 1 and asked for "
-        "different clauses or mechanisms; p*, q*, r*, u* rounds 3-6, v* round 7 (one breaking change per property, paired with a property-preserving one under benign/), given all earlier summaries and, from round 4 on, a list of mechanisms "
+rounds = ", ".join("%s*: %d changes, %d not caught on arrival" % (k, v[0], v[1]) for k, v in sorted(per_round.items(), key=lambda kv: "mnpqruvw".index(kv[0])))
+head = ("%d seeded changes in eight rounds of independent sub-agents (m* round 1; n* round 2, given the one-line summaries of round 1 and asked for "
+        "different clauses or mechanisms; p*, q*, r*, u* rounds 3-6, v* round 7 (one breaking change per property, paired with a property-preserving one under benign/), w* round 8 of breaking changes (one per property, in the last hours), given all earlier summaries and, from round 4 on, a list of mechanisms "
         "still thin: state kept on reused objects, non-default options, dtype / width truncation, thresholds in size, environment and "
         "logging level, swallowed exceptions ...). With the checks as they are now the quick check of its property catches %d of %d "
         "(`seeded/RESULTS-quick.json`: `tools/seed.py matrix quick`, run in parallel streams on frozen snapshots of /verif during the last hours - every property was re-run after the last change to its driver - and merged with `tools/merge_results.py`; the one not caught, C15-v1, needs an injected out-of-memory fault and is left uncovered by decision). Per round: %s. In total %d were NOT caught when they "
